@@ -263,6 +263,10 @@ static Case cases[] = {
     // ---- C04 / C01 integer remainder
     // KNOWN FINDING (not repaired: EvaluateTest pins "-8^-2" == -0.015625): prints DEFECT on the current tree
     {"math_negative_base_even_negative_exponent", [] { return tp_is("{math:(-2)^-2}", "[1]", "0.25"); }},
+    {"tmpl_array_index_must_be_digits", [] {
+         return tp_is("{var:list[:]}|{var:list[4294967297]}|{var:list[]}|{var:list[1]}", "{\"list\":[10,11,12,13,14,15,16,17,18,19,20,21]}",
+                      "{var:list[:]}|{var:list[4294967297]}|{var:list[]}|11");
+     }},
     {"math_power_of_real_operands", [] {
          return tp_is("{math:2.5^2}|{math:1.5^2}|{math:(-2.5)^3 == -15.625}|{math:2^2.5}|{math:2.0^3.0}", "[1]", "6.25|2.25|1|{math:2^2.5}|8");
      }},
